@@ -43,7 +43,11 @@ def sysfsCfg : SysfsCfg :=
   { statName := Gen.C09.sysfsStatName
     take := Gen.C09.sysfsTake
     unpack := Gen.C09.sysfsUnpack
-    yieldNames := Gen.C09.sysfsYield }
+    yieldNames := Gen.C09.sysfsYield
+    nameReplace := Gen.C09.sysfsNameReplace }
+
+/-- the `read_sysfs` of the source with another treatment of the directory name -/
+def sysfsCfgWith (nr : Option (Nat × Nat)) : SysfsCfg := { sysfsCfg with nameReplace := nr }
 
 /-- the generators in the order `_pslinux.disk_io_counters` tries them -/
 def diskSourceOrder : List String := Gen.C09.diskSources.map (·.1)
@@ -60,9 +64,11 @@ def diskIoCounters (sysBlock : List Bytes) (perdisk : Bool) (file : Bytes) : Out
 
 /-- `psutil.disk_io_counters(perdisk, nowrap=False)` in a world where `/proc/diskstats` and/or
     `/sys/block` may be missing: `read_procfs`, else `read_sysfs`, else `NotImplementedError` -/
-def diskIoCountersW (w : DiskWorld) (perdisk : Bool) : Out :=
+def diskIoCountersWith (sc : SysfsCfg) (w : DiskWorld) (perdisk : Bool) : Out :=
   frontEnd Gen.C09.sdiskioFields diskAgg diskEmptyPer diskEmptyTot perdisk
-    (diskPlatformW diskCfg sysfsCfg w perdisk diskSourceOrder)
+    (diskPlatformW diskCfg sc w perdisk diskSourceOrder)
+
+def diskIoCountersW (w : DiskWorld) (perdisk : Bool) : Out := diskIoCountersWith sysfsCfg w perdisk
 
 def usageCfg : UsageCfg :=
   { assigns := Gen.C09.usageAssigns.map fun a => { var := a.1, op := a.2.1, lhs := a.2.2.1, rhs := a.2.2.2 }
